@@ -345,3 +345,33 @@ def asan_summary(err):
     keep = [l.strip() for l in err.splitlines()
             if "ERROR:" in l or "SUMMARY:" in l or "runtime error" in l or ("#" in l and "/src/" in l)]
     return " | ".join(keep[:6]) if keep else err[-400:]
+
+
+def footer_len(data):
+    return int.from_bytes(data[-8:-4], "little")
+
+
+def pad_footer(data, target):
+    """the same file with created_by (FileMetaData field 6) padded so that the Thrift footer is exactly `target` bytes
+    long (None when the footer is already longer or the length cannot be hit)"""
+    import sys
+    from pathlib import Path
+    sys.path.insert(0, str(Path(__file__).resolve().parent.parent / "tools"))
+    import pq
+    def with_pad(n):
+        def fn(ts):
+            ts.set(6, pq.CT_BINARY, b"carquet-verif " + b"p" * n)
+        return pq.rewrite_footer(data, fn)
+    base = footer_len(with_pad(0))
+    if base > target:
+        return None
+    n = target - base
+    for _ in range(6):                       # the length prefix of the string is a varint: converge
+        out = with_pad(n)
+        d = footer_len(out) - target
+        if d == 0:
+            return out
+        n -= d
+        if n < 0:
+            return None
+    return None
